@@ -64,13 +64,18 @@ def explore_sampling(option, kind, policy, K, n_req, tmax_mode="symbolic", varst
         obj = algo(I)
         if option == "gillespie":
             def cp(I_, this, args):
-                this.fields["a0"].set(Fraction(1))
+                # the system may DIE (total propensity 0) at any call: decided per path; a dead system stays dead
+                if not getattr(I_, "_dead", False):
+                    if not I_.truth(I_.fresh("alive", "bool")):
+                        I_._dead = True
+                this.fields["a0"].set(Fraction(0) if getattr(I_, "_dead", False) else Fraction(1))
                 return None
             I.stubs["ComputePropensities"] = cp
             I.stubs["DrawAndApplyEvent"] = lambda I_, this, args: None
         n0 = I.call_fn("engineexport_get_nsamples", [])
         counts, T, rets, steps_dt = [n0], [Fraction(0)], [], []
         manual = []
+        dead_at = None
         for pos, what in sample_calls:
             if pos == 0:
                 I.call_fn("engineexport_sample", [])
@@ -93,6 +98,9 @@ def explore_sampling(option, kind, policy, K, n_req, tmax_mode="symbolic", varst
             rets.append(cont)
             T.append(obj.field("t"))
             counts.append(I.call_fn("engineexport_get_nsamples", []))
+            if getattr(I, "_dead", False):
+                dead_at = k
+                break
             for pos, what in sample_calls:
                 if pos == k:
                     I.call_fn("engineexport_sample", [])
@@ -106,7 +114,7 @@ def explore_sampling(option, kind, policy, K, n_req, tmax_mode="symbolic", varst
                 break
         n, data, tsout = fetch_output(I, ns, nc)
         n_b, data_b, ts_b = fetch_output(I, ns, nc)
-        return {"obj": obj, "counts": counts, "T": T, "rets": rets, "done_at": done_at, "n": n, "data": data, "ts": tsout,
+        return {"obj": obj, "counts": counts, "T": T, "rets": rets, "done_at": done_at, "dead_at": dead_at, "n": n, "data": data, "ts": tsout,
                 "again": (n_b, data_b, ts_b), "manual": manual, "R": R, "dt": dt, "tmax": (tmax if tmax_mode == "symbolic" else (R[-1] if tmax_mode == "default" else Fraction(TMAX_TAG))),
                 "ns": ns, "nc": nc}
 
@@ -147,8 +155,22 @@ def check_sampling(rec, option, kind, policy, K, n_req, tmax_mode="symbolic", va
         rec.paths += 1
         v = pr.value
         T, counts, rets, R, tmax = v["T"], v["counts"], v["rets"], v["R"], v["tmax"]
-        nsteps = len(rets)
         done_at = v["done_at"]
+        if v.get("dead_at"):
+            # the call at which the total propensity was 0 performs NO step: it reports 'finished', leaves the time where it was and
+            # records nothing; the steps before it are judged like those of a run that has not completed yet
+            kd = v["dead_at"]
+            same_t = (T[kd] is T[kd - 1]) or z3.eq(I.tosym(T[kd]), I.tosym(T[kd - 1]))
+            okd = (rets[kd - 1] is False) and same_t and counts[kd] == dict(v["manual"]).get(kd - 1, counts[kd - 1])
+            rec.oblig("a call made when the total propensity is 0 performs no step: 'finished', time unchanged, no record", "holds" if okd else "violated",
+                      "returned %s, records %d -> %d" % (rets[kd - 1], counts[kd - 1], counts[kd]), 0, desc)
+            if not okd:
+                rec.violation("sampling-dead-system:%s" % policy, "when the system dies (total propensity 0) the Gillespie engine does more than report completion: "
+                              "it records a state or moves the time although no step is made (%s)" % desc, {"structure": desc, "call": kd}, replayed=replay_dead_system(kind, policy))
+            T, counts, rets = T[:kd], counts[:kd], rets[:kd - 1]
+            if done_at is not None and done_at >= kd:
+                done_at = None
+        nsteps = len(rets)
         tmaxz = I.toreal(tmax)
         # which steps recorded (by the sampling policy; manual calls are tracked separately)
         rec_steps = []
@@ -320,6 +342,33 @@ def audit_sampling_real(option, kind, policy, seeds=(1, 2, 3), dt=0.125):
             if bad:
                 out.append({"seed": seed, "requested": req, "t_max": tmax, "step_times": T[:9], "record_times": rt, "problem": bad})
     return out
+
+
+def replay_dead_system(kind, policy):
+    """real build: a Gillespie run whose reactions are exhausted before t_max (6 molecules of A decaying, no diffusion): the records must
+    be t = 0 plus what the policy records at the 6 events - in particular strictly increasing times and, per iteration, exactly 7 records"""
+    try:
+        from .glue import real_engine
+        from strengths import RDNetwork, Species, Reaction, RDSystem, RDGridSpace, RDGraphSpace, RDScript
+        from strengths.rdgraphspace import RDGraphSpaceNode as N, RDGraphSpaceEdge as E
+        net = RDNetwork(species=[Species("A"), Species("B")], reactions=[Reaction("A -> B", kf=1.0)])
+        space = RDGridSpace(w=2, h=1, d=1) if kind == "grid" else RDGraphSpace(nodes=[N(1.0, 0), N(1.0, 0)], edges=[E(0, 1)])
+        bad = False
+        for seed in (1, 2, 3):
+            sysm = RDSystem(net, space, state=[3.0, 3.0, 0.0, 0.0])
+            e = real_engine("gillespie")
+            e.setup(RDScript(sysm, [0.0, 1e6], sampling_policy=policy, sampling_interval=1e5, rng_seed=seed, init_state_processing="none", t_max=1e6))
+            n = 0
+            while e.iterate() and n < 1000:
+                n += 1
+            e.iterate()
+            t = [float(x) for x in e.get_output().t.value]
+            e.finalize()
+            if any(b <= a for a, b in zip(t, t[1:])) or (policy == "on_iteration" and len(t) != 7):
+                bad = True
+        return bad
+    except Exception:
+        return False
 
 
 def replay_explicit_sample(option, kind):
